@@ -193,14 +193,14 @@ def sweep(ctx, N):
             ctx.violation(key, 'taylor(lambda z: %s, z0=%r, n=%d, %r): coefficient %d is %r, exact %r: error %.3g, but error_estimate %.3g and FFT floor %.3g (final radius %.4g, largest circle %.4g, nearest singularity at distance %.4g; degenerate=False, failed=False)' % (
                 g.name, z0, n, kw, k, got, ex, err, est, fl, R, Rmax, d), dict(desc, largest_radius=Rmax, coefficient=k, got=repr(got), exact=repr(ex), error=err, error_estimate=est, floor=fl, final_radius=R, distance_to_singularity=d))
         # derivative(): the same coefficients times k!, error estimates scaled the same way (bitwise)
-        if it % 4 == 0:
+        if it % 3 == 1:     # (both parities of `it`: small and large n)
             with np.errstate(all='ignore'), warnings.catch_warnings():
                 warnings.simplefilter('ignore')
                 dv, dinfo = derivative(g.f, z0, n=n, full_output=True, **kw)
             ctx.count(1, ('sweep', 'derivative'))
             fact = np.array([float(math.factorial(k)) for k in range(len(c))])
-            okv = all(complex(a) == complex(b) or abs(complex(a) - complex(b)) <= 4e-16 * abs(complex(b)) for a, b in zip(dv[:n + 1], (c * fact)[:n + 1]))
-            oke = all(float(a) == float(b) or abs(float(a) - float(b)) <= 4e-16 * abs(float(b)) for a, b in zip(dinfo.error_estimate[:n + 1], (info.error_estimate * fact)[:n + 1]))
+            okv = all(complex(a) == complex(b) or abs(complex(a) - complex(b)) <= 1e-12 * abs(complex(b)) for a, b in zip(dv[:n + 1], (c * fact)[:n + 1]))
+            oke = all(float(a) == float(b) or abs(float(a) - float(b)) <= 1e-12 * abs(float(b)) for a, b in zip(dinfo.error_estimate[:n + 1], (info.error_estimate * fact)[:n + 1]))
             if not (okv and oke) or bool(dinfo.failed) != bool(info.failed) or bool(dinfo.degenerate) != bool(info.degenerate) or dinfo.iterations != info.iterations:
                 ctx.violation('derivative-scaling', 'derivative(f, z0, n=%d) is not taylor(f, z0, n) times k! (values %s, error estimates %s)' % (n, 'ok' if okv else 'differ', 'ok' if oke else 'differ'), desc)
     ctx.cov['sweep_worst_ratio_to_bound'] = worst
